@@ -457,6 +457,16 @@ def e2e_grid(kind="float"):
 SCALAR_OPS = ["==", "!=", "<", "<=", ">", ">=", "is_null", "is_not_null"]
 
 
+def _row_plans(kind, tier):
+    """(rows per file, name suffix, inconclusive allowed).  Float files: 2 rows carry the verdict; 3 symbolic doubles per file (thorough tier)
+    leave CrossHair with undecided float paths in most operators ('Not confirmed') and are bug-hunting only."""
+    if kind == "str":
+        return [(2, "", False)]
+    if kind == "float":
+        return [(2, "", False)] if tier == "quick" else [(2, "", False), (3, "3", True)]
+    return [(3, "", False)]
+
+
 def obligations(tier):
     obs = []
     T = 240 if tier == "quick" else 900
@@ -466,11 +476,11 @@ def obligations(tier):
                 continue
             if tier == "quick" and kind in ("str", "bool") and op not in ("==", "!=", "<", ">="):
                 continue
-            nr = 2 if kind == "str" or (kind == "float" and tier == "quick") else 3
-            obs.append(Ob(f"sym.{kind}.{op}", f"vf.props.c13:{kind}_scalar", {"OP": op, "NROWS": nr}, engine="crosshair", timeout=T,
-                          bounds=f"{kind} column, {nr} rows Optional[{kind}]"
-                                 f"{' len<=2' if kind == 'str' else ''}, symbolic literal, operator {op}",
-                          weight=5 if kind in ("float", "str") else 3))
+            for nr, sfx, inc in _row_plans(kind, tier):
+                obs.append(Ob(f"sym.{kind}{sfx}.{op}", f"vf.props.c13:{kind}_scalar", {"OP": op, "NROWS": nr}, engine="crosshair", timeout=T,
+                              bounds=f"{kind} column, {nr} rows Optional[{kind}]"
+                                     f"{' len<=2' if kind == 'str' else ''}, symbolic literal, operator {op}",
+                              weight=5 if kind in ("float", "str") else 3, allow_inconclusive=inc))
     for op in ("==", ">", ">=", "<", "<="):
         obs.append(Ob(f"sym.strlong.{op}", "vf.props.c13:strlong_scalar", {"OP": op}, engine="crosshair", timeout=T,
                       bounds=f"string column, 2 rows = 40-char common prefix + symbolic suffix (len <= 1), literal likewise, operator {op}", weight=4))
@@ -478,18 +488,18 @@ def obligations(tier):
         for kind in ("int", "float", "str"):
             if tier == "quick" and kind == "str":
                 continue
-            nr = 2 if kind == "str" or (kind == "float" and tier == "quick") else 3
-            for n in (0, 1, 2):
-                obs.append(Ob(f"sym.{kind}.{op}.n{n}", f"vf.props.c13:{kind}_list{n}", {"OP": op, "NROWS": nr},
-                              engine="crosshair", timeout=T if n < 2 else T * 2,
-                              bounds=f"{kind} column, {nr} rows, literal list of exactly {n} Optional values (no NaN), operator {op}",
-                              weight=6 + n, allow_inconclusive=(kind == "float" and n == 2 and tier == "quick")))
+            for nr, sfx, inc in _row_plans(kind, tier):
+                for n in (0, 1, 2):
+                    obs.append(Ob(f"sym.{kind}{sfx}.{op}.n{n}", f"vf.props.c13:{kind}_list{n}", {"OP": op, "NROWS": nr},
+                                  engine="crosshair", timeout=T if n < 2 else T * 2,
+                                  bounds=f"{kind} column, {nr} rows, literal list of exactly {n} Optional values (no NaN), operator {op}",
+                                  weight=6 + n, allow_inconclusive=inc or (kind == "float" and n == 2)))
     for kind in ("int", "float", "str"):
         if tier == "quick" and kind == "str":
             continue
-        nr = 2 if kind == "str" or (kind == "float" and tier == "quick") else 3
-        obs.append(Ob(f"sym.{kind}.between", f"vf.props.c13:{kind}_between", {"OP": "between", "NROWS": nr}, engine="crosshair",
-                      timeout=T, bounds=f"{kind} column, {nr} rows, symbolic (lo, hi)", weight=6))
+        for nr, sfx, inc in _row_plans(kind, tier):
+            obs.append(Ob(f"sym.{kind}{sfx}.between", f"vf.props.c13:{kind}_between", {"OP": "between", "NROWS": nr}, engine="crosshair",
+                          timeout=T, bounds=f"{kind} column, {nr} rows, symbolic (lo, hi)", weight=6, allow_inconclusive=inc))
     pairs = [("==", "<"), ("!=", ">=")] if tier == "quick" else [(a, b) for a in ("==", "!=", "<", ">=") for b in ("<", "<=", ">", "==")]
     for a, b in pairs:
         obs.append(Ob(f"sym.conj.{a}.{b}", "vf.props.c13:int_conj", {"OP": a, "OP2": b}, engine="crosshair", timeout=T,
